@@ -1,12 +1,16 @@
 // Harness for commit-log parsing (C14) and the git summaries (C15).
 //
 // mode "real":  the abstract history is built with real git in a scratch repository, `coca git`
-//               (the binary, i.e. the exact `git log` invocation of cmd/git.go) is run inside it and
-//               coca_reporter/commits.json is projected; ground truth (order, abbreviated hashes,
-//               numstat figures, path texts, create/delete modes) is read from git itself through
-//               other, strictly delimited invocations.
+//
+//	(the binary, i.e. the exact `git log` invocation of cmd/git.go) is run inside it and
+//	coca_reporter/commits.json is projected; ground truth (order, abbreviated hashes,
+//	numstat figures, path texts, create/delete modes) is read from git itself through
+//	other, strictly delimited invocations.
+//
 // mode "synth": the commit list is rendered directly (git's rename notation included) and only the
-//               summaries are exercised.
+//
+//	summaries are exercised.
+//
 // In both modes the summaries are computed in-process by the real functions on the commit list.
 package main
 
@@ -39,7 +43,7 @@ type Commit struct {
 	Date    string `json:"date"`
 	Subject string `json:"subject"`
 	Cctype  string `json:"cctype"` // conventional-commit type of the subject ("" if it has none)
-	Merge   bool   `json:"merge"` // the ops are committed on a side branch which is then merged with --no-ff
+	Merge   bool   `json:"merge"`  // the ops are committed on a side branch which is then merged with --no-ff
 	Ops     []Op   `json:"ops"`
 }
 
